@@ -397,6 +397,65 @@ fn session_pass(total: &Mutex<Acc>, prelude: &[&str]) -> u64 {
     n
 }
 
+/// Numeral pass: the value of a numeric literal is the IEEE-754 double nearest to its decimal
+/// spelling. Every digit string of 1..=21 digits from four digit patterns, with the decimal
+/// point at every position, alone and as the operand of one comparison and one sum.
+fn numeral_pass(total: &Mutex<Acc>) -> u64 {
+    let patterns = ["9", "1234567890", "9128664552774769", "7205759403792794", "4503599627370497", "10000000000000001"];
+    let mut lits: Vec<String> = vec![];
+    for pat in patterns {
+        for len in 1..=21usize {
+            let digits: String = pat.chars().cycle().take(len).collect();
+            for point in 0..=len {
+                let lit = if point == len { digits.clone() } else { format!("{}.{}", &digits[..point], &digits[point..]) };
+                lits.push(lit);
+            }
+        }
+    }
+    lits.sort();
+    lits.dedup();
+    let n = lits.len() as u64;
+    let bad: Vec<Violation> = lits
+        .par_chunks(64)
+        .flat_map(|chunk| {
+            let mut out = vec![];
+            let mut texts: Vec<String> = vec![];
+            for l in chunk {
+                texts.push(l.clone());
+                texts.push(format!("{} + 0", l));
+                texts.push(format!("0 - {}", l));
+            }
+            let got = run_subject(&texts);
+            for (i, l) in chunk.iter().enumerate() {
+                let v: f64 = match l.parse::<f64>() {
+                    Ok(v) => v,
+                    Err(_) => continue,
+                };
+                let want = [format!("{}\n", v), format!("{}\n", v + 0.0), format!("{}\n", 0.0 - v)];
+                for k in 0..3 {
+                    let g = &got[3 * i + k];
+                    if *g != Outcome::Printed(want[k].clone()) {
+                        out.push(Violation {
+                            signature: format!("expr {} :: numeral value {:?} expected {:?}", texts[3 * i + k], g, want[k]),
+                            detail: format!("PRINT {} gave {:?}; the double nearest to the literal prints as {:?}", texts[3 * i + k], g, want[k]),
+                            case: case_history(&[Ev::LineToIdle(PRESET.into()), Ev::LineToIdle(format!("PRINT {}", texts[3 * i + k]))], false, false),
+                        });
+                        break;
+                    }
+                }
+            }
+            out
+        })
+        .collect();
+    let mut t = total.lock().unwrap();
+    t.violating += bad.len() as u64;
+    t.evaluations += 3 * n;
+    for v in bad.into_iter().take(50) {
+        t.violations.push(v);
+    }
+    n
+}
+
 pub fn run(thorough: bool) -> Report {
     let mut rep = Report::new("C02", "exploration");
     let total = Mutex::new(Acc::default());
@@ -466,6 +525,7 @@ pub fn run(thorough: bool) -> Report {
     // interpreters (non-initial states: hundreds of earlier successes and failures) must
     // give what a fresh interpreter gives.
     let session = session_pass(&total, &[]) + session_pass(&total, &["10 DEF ABS(X)=X*2: DEF INT(N)=N+100", "RUN"]);
+    let numerals = numeral_pass(&total);
     let acc = total.into_inner().unwrap();
     if acc.errors.len() < 2 || acc.values.len() < 10 {
         machinery("vacuous: too few distinct outcomes");
@@ -489,6 +549,7 @@ pub fn run(thorough: bool) -> Report {
         "exhaustive": true,
         "trees": acc.trees,
         "session_pass_expressions_in_long_lived_interpreters": session,
+        "numeral_spellings_checked_against_the_nearest_double": numerals,
         "trees_per_operator_count": acc.per_size,
         "families": fam_desc,
         "reference_defined": acc.defined,
